@@ -40,6 +40,17 @@ func (c *capture) Handle(_ context.Context, r slog.Record) error {
 func (c *capture) WithAttrs([]slog.Attr) slog.Handler { return c }
 func (c *capture) WithGroup(string) slog.Handler      { return c }
 
+// flushingRW is an underlying writer with a native FlushError (like net/http's): a flush sends the
+// pending header.
+type flushingRW struct{ *fx.RW }
+
+func (f flushingRW) FlushError() error {
+	if f.RW.Code == 0 {
+		f.RW.Code = 200
+	}
+	return nil
+}
+
 type resolver struct {
 	ip   string
 	fail bool
@@ -105,6 +116,9 @@ func newWorld(g int) *world {
 			c.SetHeader("Location", "/elsewhere")
 			c.Writer().WriteHeader(w.beh.Status)
 		case "redirect-noloc":
+			c.Writer().WriteHeader(w.beh.Status)
+		case "flush-then-status":
+			c.Writer().FlushError()
 			c.Writer().WriteHeader(w.beh.Status)
 		case "panic":
 			w.seq++
@@ -233,7 +247,11 @@ func (w *world) evalStep(g int, st Step) (string, string) {
 		r.RemoteAddr = remotes[st.Remote]
 		rw = fx.NewRW()
 		defer func() { pv = recover() }()
-		f.ServeHTTP(rw, r)
+		if st.Beh.Kind == "flush-then-status" {
+			f.ServeHTTP(flushingRW{rw}, r)
+		} else {
+			f.ServeHTTP(rw, r)
+		}
 		return
 	}
 	w.cap.recs = w.cap.recs[:0]
@@ -297,7 +315,7 @@ func (w *world) evalStep(g int, st Step) (string, string) {
 }
 
 func behaviours(quick bool) []behaviour {
-	out := []behaviour{{Kind: "implicit"}, {Kind: "nothing"}, {Kind: "panic"},
+	out := []behaviour{{Kind: "implicit"}, {Kind: "nothing"}, {Kind: "panic"}, {Kind: "flush-then-status", Status: 500}, {Kind: "flush-then-status", Status: 302},
 		{Kind: "redirect-loc", Status: 301}, {Kind: "redirect-noloc", Status: 302}, {Kind: "redirect-loc", Status: 308}, {Kind: "redirect-noloc", Status: 399}}
 	for s := 100; s <= 999; s++ {
 		out = append(out, behaviour{Kind: "status", Status: s})
@@ -307,7 +325,7 @@ func behaviours(quick bool) []behaviour {
 
 func run(c *mc.Ctx, r *mc.Result) {
 	behs := behaviours(c.Quick())
-	few := []behaviour{{Kind: "status", Status: 204}, {Kind: "status", Status: 503}, {Kind: "nothing"}, {Kind: "redirect-loc", Status: 301}}
+	few := []behaviour{{Kind: "status", Status: 204}, {Kind: "status", Status: 503}, {Kind: "nothing"}, {Kind: "redirect-loc", Status: 301}, {Kind: "flush-then-status", Status: 500}}
 	r.Bounds["space"] = fmt.Sprintf("%d global resolver configurations x ordered pairs (previous request kind, request kind) over %d kinds x %d remote addresses; the route handler sweeps %d behaviours (every status 100..999, implicit 200, nothing, redirects with/without Location, panic); requests are issued in sequence on one router with a deterministic context pool", nGlobals, nKinds, len(remotes), len(behs))
 	idx := 0
 	for g := 0; g < nGlobals; g++ {
